@@ -693,6 +693,62 @@ impl RenetClient {
     }
 }
 
+#[cfg(feature = "verif")]
+impl RenetClient {
+    /// Canonical read-only dump of the whole connection state (verification hook).
+    pub fn verif_dump(&self) -> String {
+        let acks: Vec<String> = self.pending_acks.iter().map(|r| format!("{}-{}", r.start, r.end)).collect();
+        let sent: Vec<String> = self
+            .sent_packets
+            .iter()
+            .map(|(seq, p)| {
+                let info = match &p.info {
+                    PacketSentInfo::None => "N".to_string(),
+                    PacketSentInfo::ReliableMessages { channel_id, message_ids } => {
+                        let ids: Vec<String> = message_ids.iter().map(|i| i.to_string()).collect();
+                        format!("M{}:{}", channel_id, ids.join(","))
+                    }
+                    PacketSentInfo::ReliableSliceMessage {
+                        channel_id,
+                        message_id,
+                        slice_index,
+                    } => format!("S{}:{}:{}", channel_id, message_id, slice_index),
+                    PacketSentInfo::Ack { largest_acked_packet } => format!("A{}", largest_acked_packet),
+                };
+                format!("{}@{}={}", seq, p.sent_at.as_nanos(), info)
+            })
+            .collect();
+        let mut out = format!(
+            "seq={} now={} acks=[{}] sent=[{}]",
+            self.packet_sequence,
+            self.current_time.as_nanos(),
+            acks.join(";"),
+            sent.join(";")
+        );
+        let mut ids: Vec<&u8> = self.send_unreliable_channels.keys().collect();
+        ids.sort();
+        for id in ids {
+            out.push_str(&format!(" su{}{{{}}}", id, self.send_unreliable_channels[id].verif_dump()));
+        }
+        let mut ids: Vec<&u8> = self.send_reliable_channels.keys().collect();
+        ids.sort();
+        for id in ids {
+            out.push_str(&format!(" sr{}{{{}}}", id, self.send_reliable_channels[id].verif_dump()));
+        }
+        let mut ids: Vec<&u8> = self.receive_unreliable_channels.keys().collect();
+        ids.sort();
+        for id in ids {
+            out.push_str(&format!(" ru{}{{{}}}", id, self.receive_unreliable_channels[id].verif_dump()));
+        }
+        let mut ids: Vec<&u8> = self.receive_reliable_channels.keys().collect();
+        ids.sort();
+        for id in ids {
+            out.push_str(&format!(" rr{}{{{}}}", id, self.receive_reliable_channels[id].verif_dump()));
+        }
+        out
+    }
+}
+
 #[cfg(test)]
 mod tests {
     use super::*;
